@@ -1049,6 +1049,164 @@ def ledger_specs(rng, n, thorough, idx=0):
 
 
 # --------------------------------------------------------------------------
+# E. one connection whose ledger is attached again (what the shell's .reload does): BALANCES / JOURNAL must report the
+# ledger that is attached NOW - equal to their SELECT expansion on the same connection, to the same statement on a
+# connection attached once to that ledger, and to the sums / register computed from the directives.
+
+def gen_reattach_ops(rng, n_ledgers):
+    """[('attach', ledger index) | ('stmt', spec)], starting with an attach; statements are mostly clause-less
+    BALANCES / JOURNAL [AT f], repeated after the ledger has been replaced"""
+    def stmt():
+        r = rng.random()
+        f = rng.choice([None, None, 'units', 'cost'])
+        if r < 0.35:
+            return ('B', 'text', f, None, None)
+        if r < 0.65:
+            return ('J', 'text', None, f, None)
+        if r < 0.75:
+            return ('J', 'text', rng.choice(['Assets', 'Cash$', 'Food|Rent']), f, rng.choice([None, 'year = 2020']))
+        if r < 0.85:
+            return ('B', 'text', f, rng.choice([None, 'year = 2020', 'OPEN ON 2020-03-01 CLOSE']), rng.choice([None, "account ~ 'Assets'"]))
+        if r < 0.93:
+            return ('B', 'api', rng.choice([None, 'units', 'cost']), None, None)
+        return ('J', 'api', None, rng.choice([None, 'units', 'cost']), None)
+    cur = rng.randrange(n_ledgers)
+    ops, used = [('attach', cur, 'connect')], []
+    for seg in range(rng.randint(2, 4)):
+        for _ in range(rng.randint(1, 3)):
+            s = rng.choice(used) if used and seg > 0 and rng.random() < 0.7 else stmt()
+            used.append(s)
+            ops.append(('stmt', s))
+        cur = rng.choice([i for i in range(n_ledgers) if i != cur])
+        ops.append(('attach', cur, rng.choice(['attach', 'attach', 'rewrite-file'])))
+    ops.append(('stmt', rng.choice(used)))
+    if rng.random() < 0.5:
+        ops.append(('stmt', stmt()))
+    return ops
+
+
+def _stmt_texts(spec):
+    """(what to execute, its SELECT expansion, parameters of the expansion)"""
+    if spec[0] == 'B':
+        _, via, f, fr, wh = spec
+        return (build_node(spec) if via == 'api' else balances_text(f, fr, wh)), balances_select_text(f, fr, wh), None
+    _, via, p, f, fr = spec
+    return (build_node(spec) if via == 'api' else journal_text(p, f, fr)), journal_select_text(p, f, fr), ((p,) if p else None)
+
+
+def check_reattach(args):
+    """One connection, ops in order -> list of records (one per statement step). Top level for core.pmap."""
+    texts, ops = args
+    os.makedirs(TMP, exist_ok=True)
+    scratch = os.path.join(TMP, f'reattach-{os.getpid()}.beancount')
+    paths = {}
+    out = []
+    conn = None
+    try:
+        for i, text in enumerate(texts):
+            paths[i] = os.path.join(TMP, f'reattach-{os.getpid()}-{i}.beancount')
+            with open(paths[i], 'w') as f:
+                f.write(text)
+        nattach = 0
+        current = None
+        for op in ops:
+            if op[0] == 'attach':
+                _, li, how = op
+                current = li
+                if conn is None:
+                    with open(scratch, 'w') as f:
+                        f.write(texts[li])
+                    conn = beanquery.connect('beancount:' + scratch)
+                    continue
+                nattach += 1
+                if how == 'rewrite-file':             # the user edited the file, the shell re-loads the same name
+                    with open(scratch, 'w') as f:
+                        f.write(texts[li])
+                    target = scratch
+                else:
+                    target = paths[li]
+                conn.errors.clear()                   # BQLShell.do_reload
+                conn.options.clear()
+                conn.attach('beancount:' + target)
+                continue
+            spec = _hashable(op[1])
+            rec = {'spec': list(spec), 'problems': [], 'after_attaches': nattach, 'ledger': current}
+            try:
+                stmt, sel, selp = _stmt_texts(spec)
+                a = run_query(conn, stmt)
+                b = run_query(conn, sel, selp)
+                fresh = beanquery.connect('beancount:' + paths[current])
+                stmt2, _, _ = _stmt_texts(spec)       # an AST statement is built again: nothing shared with the other connection
+                c = run_query(fresh, stmt2)
+                why = same_result(a, b)
+                if why:
+                    rec['problems'].append(('reattach-vs-select', why))
+                why = same_result(a, c)
+                if why:
+                    rec['problems'].append(('reattach-vs-fresh-connection', why))
+                rec['status'] = a[0] if a[0] == 'ok' else a[1]
+                rec['rows'] = len(a[2]) if a[0] == 'ok' else None
+                fl = spec[2] if spec[0] == 'B' else spec[3]
+                if a[0] == 'ok' and spec[0] == 'B' and spec[3] is None and spec[4] is None:
+                    ent = fresh.tables['entries']
+                    want, _ = oracle_balances(ent.entries, ent.options, fl)
+                    rec['oracle'] = True
+                    if [(r[0], r[1]) for r in a[2]] != want:
+                        rec['problems'].append(('reattach-vs-oracle', f'{[(r[0], r[1]) for r in a[2]]!r} / sums over the attached ledger {want!r}'))
+                if a[0] == 'ok' and spec[0] == 'J' and spec[4] is None:
+                    want = oracle_journal(fresh.tables['entries'].entries, spec[2], fl)
+                    got = [(r[0], r[1], r[4], r[5], r[6]) for r in a[2]]
+                    rec['oracle'] = True
+                    if got != want:
+                        rec['problems'].append(('reattach-vs-oracle', f'{len(got)} rows / register of the attached ledger {len(want)} rows'))
+            except Exception as e:
+                rec['problems'].append(('harness-exception', repr(e) + traceback.format_exc()[-600:]))
+            out.append(rec)
+    finally:
+        for pth in list(paths.values()) + [scratch]:
+            if os.path.exists(pth):
+                os.unlink(pth)
+    return out
+
+
+def reattach_fails(texts, ops, kind):
+    ops = [tuple(_hashable(o)) for o in ops]
+    recs = check_reattach((texts, ops))
+    return bool(recs) and any(k == kind for k, _ in recs[-1]['problems'])
+
+
+def shrink_reattach(texts, ops, k_stmt, kind):
+    """ops up to the failing statement step, minimised: drop earlier steps while the last statement still fails"""
+    n = -1
+    cut = None
+    for i, op in enumerate(ops):
+        if op[0] == 'stmt':
+            n += 1
+            if n == k_stmt:
+                cut = i
+                break
+    head, last = list(ops[1:cut]), ops[cut]
+    if os.environ.get('C14_NOSHRINK'):
+        return [ops[0]] + head + [last]
+    try:
+        small = ddmin(head, lambda hs: reattach_fails(texts, [ops[0]] + hs + [last], kind), max_tests=30) if len(head) >= 2 else head
+    except Exception:
+        small = head
+    return [ops[0]] + list(small) + [last]
+
+
+def show_ops(ops):
+    out = []
+    for op in ops:
+        if op[0] == 'attach':
+            out.append(f'{op[2]}(ledger {op[1]})')
+        else:
+            stmt = _stmt_texts(_hashable(op[1]))[0]
+            out.append(stmt if isinstance(stmt, str) else f'execute({type(stmt).__name__} node, summary_func={stmt.summary_func!r})')
+    return ' ; '.join(out)
+
+
+# --------------------------------------------------------------------------
 # D. PRINT
 
 PRINT_FROM = [
@@ -1387,6 +1545,8 @@ def replay(rec):
         return not stmt_fails(rec['ledger'], rec['spec'], rec['problem'])
     if kind == 'print':
         return not print_fails(rec['ledger'], rec['from_index'], rec['problem'])
+    if kind == 'reattach':
+        return not reattach_fails(rec['ledgers'], rec['ops'], rec['problem'])
     raise ValueError(kind)
 
 
@@ -1524,7 +1684,52 @@ def run(tier, rng):
                       'from_clauses': [fr for fr, _ in PRINT_FROM]}
 
     core.log(f'[C14] D judged/shrunk: {time.time() - t0:.1f}s')
-    cov['evaluations'] = n_a + n_b + n_d + len(key_lists)
+
+    # E: statements repeated on one connection across re-attached ledgers
+    ltexts = [text for _, text in ledgers]
+    n_seq = 400 if thorough else 6 if smoke else 64          # core.pmap runs in parallel from 64 items on
+    seqs = [gen_reattach_ops(rng, len(ltexts)) for _ in range(n_seq)] if len(ltexts) >= 2 else []
+    ejobs = [(ltexts, ops) for ops in seqs]
+    eres = core.pmap(check_reattach, ejobs, chunksize=1)
+    ehist = {'statement_steps': 0, 'after_n_attaches': {}, 'clause_less': 0, 'oracle_checked': 0, 'status': {}, 'attach_kinds': {},
+             'repeated_after_reattach': 0, 'rows_compared': 0}
+    ekinds = {}
+    for ops, recs in zip(seqs, eres):
+        for op in ops:
+            if op[0] == 'attach':
+                ehist['attach_kinds'][op[2]] = ehist['attach_kinds'].get(op[2], 0) + 1
+        seen_specs = {}
+        for k, r in enumerate(recs):
+            spec = _hashable(r['spec'])
+            ehist['statement_steps'] += 1
+            na = min(r['after_attaches'], 4)
+            ehist['after_n_attaches'][na] = ehist['after_n_attaches'].get(na, 0) + 1
+            ehist['clause_less'] += spec[-1] is None and spec[-2] is None if spec[0] == 'B' else spec[2] is None and spec[4] is None
+            ehist['oracle_checked'] += bool(r.get('oracle'))
+            ehist['status'][str(r.get('status'))] = ehist['status'].get(str(r.get('status')), 0) + 1
+            ehist['rows_compared'] += r.get('rows') or 0
+            if spec in seen_specs and seen_specs[spec] < r['after_attaches']:
+                ehist['repeated_after_reattach'] += 1
+            seen_specs.setdefault(spec, r['after_attaches'])
+            for kind, why in r['problems']:
+                ekinds.setdefault(kind, []).append((ops, k, spec, why))
+    for kind, items in ekinds.items():
+        ops, k, spec, why = min(items, key=lambda it: it[1])
+        small = shrink_reattach(ltexts, ops, k, kind) if kind != 'harness-exception' else list(ops)
+        used = sorted({op[1] for op in small if op[0] == 'attach'})
+        remap = {li: j for j, li in enumerate(used)}
+        small = [(op[0], remap[op[1]], op[2]) if op[0] == 'attach' else op for op in small]
+        violations.append(core.Violation(
+            kind, f'{kind}: one connection: {show_ops(small)}: the last statement: {why[:600]} ({len(items)} statement steps)',
+            {'kind': 'reattach', 'problem': kind, 'ledgers': [ltexts[li] for li in used], 'ops': [list(op) for op in small], 'why': why},
+            signature=f'{kind}:{spec_class(spec)}'))
+    cov['E_reattach'] = {'sequences': len(seqs), **ehist, 'samples': [show_ops(ops) for ops in seqs[:2]]}
+    cov['rule'] += ('; E: sequences on ONE connection - BALANCES / JOURNAL [AT f] (mostly without clauses; text and AST), the ledger '
+                    'attached again as BQLShell.do_reload does (another file, or the same file rewritten), the same statements again - '
+                    'every statement vs its SELECT expansion on that connection, vs a connection attached once to the current ledger, '
+                    'vs sums / register computed from the directives')
+    core.log(f'[C14] E re-attach: {ehist["statement_steps"]} statement steps, {time.time() - t0:.1f}s')
+    cov['evaluations'] = n_a + n_b + n_d + len(key_lists) + ehist['statement_steps']
     cov['distinct_nontrivial'] = cov['A_transform']['distinct_results'] + len(class_hist) + n_d
     cov['traces_validated_against_impl'] = n_a + n_d
     cov['samples'] = cov['A_transform'].pop('samples')
